@@ -11,6 +11,8 @@ Emitted (all `Definition`s of data):
                                                  statement's qubits are targets / controls, whether the parameters are passed
   export_names  : list (string * string)        _GATE_NAME_TO_QASM_NAME
   export_defns  : list (string * string)        QasmOutput._qasm_defns: gate name -> emitted definition text
+  export_noparam_defs : list string              the literal tuple of QasmOutput.takes_parameters (defined gates applied without a parameter list;
+                                                 for names of `signatures` takes_parameters is `#parameters > 0`; both shapes are checked)
   export_flags  : record of booleans describing the guarded shapes of the exporter the hand model relies on
 """
 import ast
@@ -424,6 +426,26 @@ def generate():
         raise Broken(W + "_qasm_defns", "shape changed: " + " | ".join(tail)[:200])
     defns = _str_table(tree, b[:-3], "gate.name", "gate_def", ["self._qasm_defn_resolve(gate)", "return"], W + "_qasm_defns")
 
+    # (g) QasmOutput.takes_parameters: which QASM names are applied with a parameter list
+    tp = _find(outc.body, ast.FunctionDef, "takes_parameters")
+    WT = W + "takes_parameters"
+    if [a.arg for a in tp.args.args] != ["self", "qasm_name"] or tp.args.vararg or tp.args.kwarg or tp.args.kwonlyargs \
+            or tp.args.defaults or tp.decorator_list:
+        raise Broken(WT, "signature changed")
+    b = _strip(tp.body)
+    if len(b) != 2 or not isinstance(b[0], ast.If) or b[0].orelse or not isinstance(b[1], ast.Return):
+        raise Broken(WT, "shape changed: " + " | ".join(ast.unparse(x) for x in b)[:300])
+    if ast.unparse(b[0].test) != "qasm_name in _PREDEFINED_GATE_SIGNATURES" or len(b[0].body) != 1 \
+            or ast.unparse(b[0].body[0]) != "return _PREDEFINED_GATE_SIGNATURES[qasm_name][0] > 0":
+        raise Broken(WT, "first branch is not `if qasm_name in _PREDEFINED_GATE_SIGNATURES: return "
+                         "_PREDEFINED_GATE_SIGNATURES[qasm_name][0] > 0`: " + ast.unparse(b[0])[:200])
+    r = b[1].value
+    if not (isinstance(r, ast.Compare) and ast.unparse(r.left) == "qasm_name" and len(r.ops) == 1 and isinstance(r.ops[0], ast.NotIn)
+            and len(r.comparators) == 1 and isinstance(r.comparators[0], (ast.Tuple, ast.List))
+            and all(isinstance(e, ast.Constant) and isinstance(e.value, str) for e in r.comparators[0].elts)):
+        raise Broken(WT, "second statement is not `return qasm_name not in (<string literals>)`: " + ast.unparse(b[1])[:200])
+    noparam = [e.value for e in r.comparators[0].elts]
+
     out = ["(* GENERATED by tools/translate/qasm_tr.py from qasm.py - do not edit *)",
            "From QV Require Import Found.Sym Gen.Gates.", "Local Open Scope Q_scope.", "Local Open Scope string_scope.", "",
            "Record shortcut := mkSc { sc_native : string; sc_targets : list nat; sc_controls : list nat; sc_args : bool }.", ""]
@@ -438,10 +460,11 @@ def generate():
                ";\n  ".join(f"({cs(q)}, mkSc {cs(n)} {nl(tg)} {nl(ct)} {'true' if p else 'false'})" for q, n, tg, ct, p in allrows) + "].")
     out.append("Definition export_names : list (string * string) := " + cl(f"({cs(k)}, {cs(v)})" for k, v in names) + ".")
     out.append("Definition export_defns : list (string * string) := " + cl(f"({cs(k)}, {cs(v)})" for k, v in defns) + ".")
+    out.append("Definition export_noparam_defs : list string := " + cl(cs(x) for x in noparam) + ".")
     text = "\n".join(out) + "\n"
     write_if_changed(os.path.join(COQ, "Gen", "Qasm.v"), text)
     return dict(signatures=sig, builtin=builtin, qiskit=qiskit, helpers=[k for k, _ in hmap],
-                shortcuts=[(q, n, tg, ct, p) for q, n, tg, ct, p in allrows], export_names=names, export_defns=defns)
+                shortcuts=[(q, n, tg, ct, p) for q, n, tg, ct, p in allrows], export_names=names, export_defns=defns, export_noparam_defs=noparam)
 
 
 if __name__ == "__main__":
